@@ -44,12 +44,74 @@ def risk_table():
     return out
 
 
+def _neighbour_market(token_names):
+    """ANOTHER Aave market in the same process, built from a risk table in which every LTV / threshold / bonus differs, used
+    (supply, borrow, every risk view read, one end-of-bar update) before the market under test exists: nothing the two markets share
+    at class or module level may carry its risk parameters over"""
+    import tempfile
+    from demeter import TokenInfo, MarketInfo, MarketTypeEnum, Broker, MarketStatus
+    from demeter.aave import AaveV3Market
+
+    rows = list(csv.DictReader(open(RISK_CSV)))
+    for r in rows:
+        for col, d in (("baseLTVasCollateral", -1500), ("reserveLiquidationThreshold", -1200), ("reserveLiquidationBonus", 300)):
+            try:
+                v = int(r[col])
+            except (TypeError, ValueError):
+                continue
+            if v > 0:
+                r[col] = str(max(v + d, 100))
+    f = tempfile.NamedTemporaryFile("w", suffix=".csv", delete=False, newline="")
+    wr = csv.DictWriter(f, fieldnames=list(rows[0].keys()))
+    wr.writeheader()
+    wr.writerows(rows)
+    f.close()
+    try:
+        toks = {n: TokenInfo(n, 18) for n in token_names}
+        m = AaveV3Market(MarketInfo("aave_other", MarketTypeEnum.aave_v3), f.name, tokens=list(toks.values()))
+        b = Broker()
+        b.add_market(m)
+        names = list(token_names)
+        idx = pd.MultiIndex.from_product([names, COLS])
+        data = []
+        for n in names:
+            data += [Decimal("0.02"), Decimal("0.05"), Decimal("0.04"), Decimal(1), Decimal(1)]
+        st = MarketStatus(T0 - timedelta(minutes=5))
+        st.data = pd.Series(index=idx, data=data, dtype=object)
+        m.set_market_status(data=st, price=pd.Series({n: Decimal(1) for n in names}, dtype=object))
+        risk = risk_table()
+        for n in names:
+            b.set_balance(toks[n], Decimal(1000))
+        for n in names:
+            try:
+                m.supply(toks[n], Decimal(100), risk[n]["coll"])
+            except Exception:
+                pass
+        for n in names:
+            try:
+                m.borrow(toks[n], Decimal(5))
+            except Exception:
+                pass
+        warm_views(m)
+        for n in names:
+            try:
+                m.get_max_withdraw_amount(toks[n])
+                m.get_max_borrow_amount(toks[n])
+            except Exception:
+                pass
+        m.update()
+    finally:
+        os.unlink(f.name)
+
+
 class AaveWorld:
     def __init__(self, ctx, token_names, decimals=None):
         from demeter import TokenInfo, MarketInfo, MarketTypeEnum, Broker
         from demeter.aave import AaveV3Market
 
         self.ctx = ctx
+        if getattr(ctx, "p", {}).get("neighbour_market"):
+            _neighbour_market(token_names)
         decimals = decimals if decimals is not None else {"USDC": 6, "USDT": 6}  # as on chain
         self.tokens = {n: TokenInfo(n, decimals.get(n, 18)) for n in token_names}
         self.names = list(token_names)
